@@ -366,7 +366,7 @@ ok("C10", "snapshot taken lazily during submission (still before any write-back)
 brk("C10", "bound method submitted to the pool", "I2", _sub(
     TEBDB, '                with concurrent.futures.ThreadPoolExecutor() as executor:\n                    output_datas = executor.map(apply_nn_gate, input_datas)',
     '                with concurrent.futures.ThreadPoolExecutor() as executor:\n                    output_datas = executor.map(self.apply_nn_gate, gate_layer.gates)'))
-brk("C10", "write-back while the pool is still running", "I2", _sub(
+ok("C10", "write-back of each ordered result while later workers still run on their copies", _sub(
     TEBDB, '                with concurrent.futures.ThreadPoolExecutor() as executor:\n                    output_datas = executor.map(apply_nn_gate, input_datas)',
     '                with concurrent.futures.ThreadPoolExecutor() as executor:\n                    output_datas = executor.map(apply_nn_gate, input_datas)\n                    for output_data in output_datas:\n                        self._apply_nn_gate_replace_gam_lam_gam(*output_data)\n                    output_datas = []'))
 brk("C10", "snapshot hands out the live lambda", "I2", _sub(
@@ -1457,6 +1457,40 @@ ok("C20", "Control.add_single copies at the store", _multi(
          "                self._step_controls[pre_post][time] = control_operation.copy()\n"),
     _sub(CT, "                self._time_controls[pre_post][time] = control_operation\n",
          "                self._time_controls[pre_post][time] = np.array(control_operation)\n")))
+# ---------------------------------------- optional fields read back independently (C16 X8)
+brk("C16", "transforms read back as a pair: one sentinel drops both", "X8", _sub(
+    PT, """        if _is_hdf5_none(transform_in):
+            transform_in = None
+        transform_out = np.array(self._f["transform_out"])
+        if _is_hdf5_none(transform_out):
+            transform_out = None
+""", """        transform_out = np.array(self._f["transform_out"])
+        if _is_hdf5_none(transform_in) or _is_hdf5_none(transform_out):
+            transform_in, transform_out = None, None
+"""))
+
+# ---------------------------------------- all float-time controls of a step act (C18 O5)
+brk("C18", "only the first float-time pre-control of a step acts", "O5", _sub(
+    CT, """            pre_control = self._time_controls['pre'][times[0]] @ pre_control
+            for t in times[1:]:
+                pre_control = self._time_controls['pre'][t] @ pre_control
+""", """            pre_control = self._time_controls['pre'][times[0]] @ pre_control
+"""))
+ok("C18", "float-time post-controls applied in one loop over the selection", _sub(
+    CT, """            post_control = self._time_controls['post'][times[0]] @ post_control
+            for t in times[1:]:
+                post_control = self._time_controls['post'][t] @ post_control
+""", """            for t in times:
+                post_control = self._time_controls['post'][t] @ post_control
+"""))
+
+# ---------------------------------------- input conversions copy (C20 A8)
+brk("C20", "Lindblad operators converted with np.asarray", "A8", _sub(
+    SY, "                np.array(lindblad_operator, dtype=NpDtype))", "                np.asarray(lindblad_operator, dtype=NpDtype))"))
+brk("C20", "Hamiltonian converted with copy=False", "A8", _sub(
+    SY, "        tmp_hamiltonian = np.array(hamiltonian, dtype=NpDtype)", "        tmp_hamiltonian = np.array(hamiltonian, dtype=NpDtype, copy=False)"))
+
+# ---------------------------------------- persistent pool that is shut down (C10 / C19)
 ok("C11", "Gibbs: remaining steps via a temporary", _sub(
     TE, "        num_step = max(\n            0, self._parameters.n_steps - 1 - self._backend_instance.step)",
     "        done = self._backend_instance.step\n        last = self._parameters.n_steps - 1\n        num_step = max(0, last - done)"))
